@@ -4,7 +4,8 @@ import os, sys
 sys.path.insert(0, os.path.join(os.path.dirname(os.path.abspath(__file__)), "..", "tools"))
 from vlib import *
 
-OVERLAY = {"p2p/net/swarm/zz_c06_verif_test.go": "harness/overlay/swarm/c06_verif_test.go"}
+OVERLAY = {"p2p/net/swarm/zz_c06_verif_test.go": "harness/overlay/swarm/c06_verif_test.go",
+           "p2p/net/swarm/zz_c06s_verif_test.go": "harness/overlay/swarm/c06s_verif_test.go"}
 PKG = "p2p/net/swarm"
 
 
@@ -17,8 +18,22 @@ def consts(ctx):
 
 
 def harness(ctx, casefile, tier, seed):
-    return ctx.go_test(PKG, "TestVerifC06$", OVERLAY,
-                       env={"VERIF_OUT": casefile, "VERIF_TIER": tier, "VERIF_SEED": str(seed)}, timeout=3000)
+    rc, out = ctx.go_test(PKG, "TestVerifC06$", OVERLAY,
+                          env={"VERIF_OUT": casefile, "VERIF_TIER": tier, "VERIF_SEED": str(seed)}, timeout=3000)
+    # whole-swarm runs (kind 7 cases) are appended to the same case file
+    sw = casefile + ".swarm"
+    for p in (sw, sw + ".cov"):
+        if os.path.exists(p):
+            os.remove(p)
+    rc2, out2 = ctx.go_test(PKG, "TestVerifC06Swarm$", OVERLAY,
+                            env={"VERIF_OUT": sw, "VERIF_TIER": tier, "VERIF_SEED": str(seed)}, timeout=3000)
+    if os.path.exists(sw) and os.path.exists(casefile):
+        with open(casefile, "a") as f:
+            f.write(open(sw).read())
+        if os.path.exists(sw + ".cov"):
+            with open(casefile + ".cov", "a") as f:
+                f.write(open(sw + ".cov").read())
+    return (rc or rc2), out + out2
 
 
 def warm(ctx):
@@ -28,10 +43,14 @@ def warm(ctx):
 
 
 def replay_harness(ctx, casefile, toks):
-    return ctx.go_test(PKG, "TestVerifC06Replay$", OVERLAY,
+    return ctx.go_test(PKG, "TestVerifC06SwarmReplay$" if toks and toks[0] == 7 else "TestVerifC06Replay$", OVERLAY,
                        env={"VERIF_OUT": casefile, "VERIF_REPLAY_CASE": " ".join(map(str, toks))}, timeout=600)
 
 
+SNAMES = {9: "Connected.begin", 10: "Connected.end", 11: "Disconnected.begin", 12: "Disconnected.end", 17: "StreamIn",
+          14: "Pub", 18: "SwarmCloseCall", 19: "SwarmCloseRet", 20: "FinalConnectedness", 21: "Listed", 15: "Quiesce", 16: "Stuck"}
+SCLAUSE = {1: "connected-exactly-once", 2: "disconnected-once-after-connected", 3: "swarm-close-waits", 4: "no-repeated-state",
+           5: "quiescence(truthful/listed/exactly-once)", 6: "stuck", 7: "stream-before-connected"}
 NAMES = {1: "Reg", 2: "Unreg", 3: "AddCall", 4: "AddRet", 5: "RemCall", 6: "RemRet", 7: "CloseCall", 8: "CloseRet",
          9: "ConnB", 10: "ConnE", 11: "DiscB", 12: "DiscE", 13: "Read", 14: "Pub", 15: "Quiesce", 16: "Stuck"}
 CLAUSE = {1: "connected-exactly-once", 2: "disconnected-once-after-connected", 3: "close-waits",
@@ -43,6 +62,20 @@ def labels_of(t):
         return []
     body = t[6 + t[5]:]
     return [tuple(body[i:i + 4]) for i in range(0, len(body) - 3, 4)]
+
+
+def sshow(lb):
+    code, x, y, z = lb
+    n = SNAMES.get(code, "?%d" % code)
+    if code in (9, 10, 11, 12):
+        return "%s(c%d)@notifiee%d" % (n, x, y)
+    if code in (14, 20):
+        return "%s(%s)" % (n, {0: "NotConnected", 1: "Connected", 4: "Limited"}.get(y, y))
+    if code == 21:
+        return "%s(c%d,%s)" % (n, x, "yes" if y else "no")
+    if code == 17:
+        return "%s(c%d)" % (n, x)
+    return n
 
 
 def show(lb):
@@ -58,6 +91,13 @@ def show(lb):
 
 
 def describe(t):
+    if t and t[0] == 7:
+        m = t[6:6 + t[5]]
+        return {"kind": "whole swarm", "notifiees": m[0], "conns": m[1], "block Connected@0": m[2], "block Disconnected@0": m[3],
+                "script": {0: "remote close in order", 1: "remote close reversed", 2: "local ClosePeer while Connected blocked",
+                           3: "Connected handler closes the conn", 4: "Swarm.Close while callbacks blocked",
+                           5: "local Close of each conn after streams"}.get(m[4], m[4]),
+                "trace": [sshow(l) for l in labels_of(t)][:200]}
     return {"cap": t[1] if len(t) > 1 else None, "meta(config+schedule)": t[6:6 + t[5]] if len(t) > 5 else None,
             "trace": [show(l) for l in labels_of(t)][:200]}
 
@@ -65,6 +105,8 @@ def describe(t):
 def nontrivial(line):
     # a removal overtook an in-flight Connected (RemCall c before ConnE c), or a repeated NotConnected was published
     t = [int(x) for x in line.split()]
+    if t and t[0] == 7:
+        return True
     seen_rem, lastpub = set(), {}
     for code, x, y, z in labels_of(t):
         if code == 5:
@@ -97,6 +139,10 @@ def key(tag, toks, d):
     # d = [902, position of the failing label, clause numbers...]
     labs = labels_of(toks)
     pos = d[1] if len(d) > 1 else len(labs)
+    if toks and toks[0] == 7:
+        return "C06:swarm:%s:script=%s:at=%s:%s" % (",".join(SCLAUSE.get(c, str(c)) for c in d[2:]), toks[6:6 + toks[5]],
+                                                    sshow(labs[pos]) if 0 <= pos < len(labs) else "?",
+                                                    " ".join("%d.%d.%d" % l[:3] for l in labs[:pos + 1] if l[0] != 14))
     clauses = ",".join(CLAUSE.get(c, str(c)) for c in d[2:])
     at = show(labs[pos]) if 0 <= pos < len(labs) else "?"
     # only the labels that name the conns/peers of the failing label matter for identity; keep the whole prefix
@@ -107,6 +153,9 @@ def key(tag, toks, d):
 def what(tag, toks, d):
     labs = labels_of(toks)
     pos = d[1] if len(d) > 1 else -1
+    if toks and toks[0] == 7:
+        return "whole swarm: clause %s fails when %s is observed (label #%d)" % (
+            "+".join(SCLAUSE.get(c, str(c)) for c in d[2:]), sshow(labs[pos]) if 0 <= pos < len(labs) else "?", pos)
     return "clause %s fails when %s is observed (label #%d of the trace)" % (
         "+".join(CLAUSE.get(c, str(c)) for c in d[2:]), show(labs[pos]) if 0 <= pos < len(labs) else "?", pos)
 
@@ -124,7 +173,7 @@ if __name__ == "__main__":
         consts=consts,
         coq_targets=["c06/Properties.vo", "c06/Extract.vo"],
         props="c06/Properties.v",
-        spec_module="c06.Spec",
+        spec_module="c06.SpecTop",
         harness=harness, replay_harness=replay_harness, warm=warm,
         nontrivial=nontrivial,
         rule="the real connectionEventsEmitter (in-package overlay test) with harness-supplied onConnected / onDisconnected / "
@@ -136,6 +185,13 @@ if __name__ == "__main__":
              "seeded random schedules of random configurations (callbacks closing their own or another conn, synchronous RemoveConn "
              "inside Connected, a subscriber closing a conn, up to 3 (quick) / 6 (thorough) conns). Each recorded label trace is checked "
              "for acceptance by the LTS (conform_case) and judged by the property monitor (monitor_case). Non-trivial = a removal "
-             "overtook an in-flight Connected or a repeated NotConnected was published.",
+             "overtook an in-flight Connected or a repeated NotConnected was published. "
+             "WHOLE-SWARM runs (kind 7, monitor only, real scheduler): a real Swarm with a TCP listener, two recording Notifiees "
+             "(one can block in Connected / Disconnected), a stream handler and a bus subscriber; 1-3 inbound conns from a second "
+             "swarm's transport with a stream opened at once on each; closed remotely (both orders), by ClosePeer while Connected "
+             "is blocked, from inside Connected, by Swarm.Close while callbacks are blocked, or locally; judged for: each notifiee "
+             "sees Connected/Disconnected exactly once and in order, no inbound stream before Connected returned at every notifiee, "
+             "Swarm.Close returns after all callbacks, no repeated published state, final event = Connectedness, ConnsToPeer = the "
+             "announced conns that were not disconnected.",
         describe=describe, key=key, what=what, crosscheck=60,
     ))
